@@ -3,7 +3,7 @@ from vlib import oracles, reharness
 from vlib.harness import Harness, register
 from harnesses.c01_documents import OUT, STUBS, _fns
 
-PLANS_Q = ["staged_monitor", "flymon", "scan2", "nested_runs", "norewind_section", "configure_mid"]
+PLANS_Q = ["staged_monitor", "flymon", "scan2", "nested_runs", "norewind_section", "configure_mid", "configure_late"]
 PLANS_T = PLANS_Q + ["count2", "bare", "declared", "grid2x2", "fly1", "count_norewind", "adaptive"]
 
 
